@@ -13,6 +13,7 @@ from fsic.core.containers import VectorContainer
 from fsic.exceptions import DimensionError, DuplicateNameError
 from pyvc import values as V
 from pyvc.contracts import Call, FunctionContract
+from pyvc.ctx import OutOfSubset
 from pyvc.interp import exc_class
 from pyvc.libspec import ARROBJ, ND_DTYPE, ND_LEN0, ND_NDIM, ND_OWNED, ND_SIZE, NDStore, SDType, SeqVal, SND, fresh_nd
 from pyvc.values import BOOL, F64, INT, STR, SBool, SFloat, SInt, SObj, SSeq, SStr, forall_range
@@ -248,3 +249,133 @@ class ModelAddVariable(FunctionContract):
 
 
 CONTRACTS.append(ModelAddVariable())
+
+
+# ---------------------------------------------------------------------------------------------------------------
+# `values` setter (bulk replacement): VectorContainer (order: index) and ModelInterface (order: names)
+# ---------------------------------------------------------------------------------------------------------------
+class ValuesSetter(FunctionContract):
+    """obj.values = array | scalar: an array of another shape is rejected (DimensionError) before anything is assigned; otherwise each
+    variable, in declaration order, is assigned exactly once through the checked single-variable assignment (`__setattr__`, whose own
+    contract keeps length and dtype) - row i of the array cast to that variable's dtype, or the scalar spread over the variable's shape
+    with the variable's dtype; nothing else is assigned."""
+    props = ('C09',)
+    required_covers = ('assigned', 'DimensionError')
+
+    def __init__(self, which):
+        self.which = which
+        self.qualname = {'container': 'fsic.core.containers.VectorContainer.values@setter', 'model': 'fsic.core.interfaces.ModelInterface.values@setter'}[which]
+
+    def scenarios(self):
+        return ['array', 'array-wrong-shape', 'scalar', 'no-variables/array', 'no-variables/scalar']
+
+    def setup(self, interp, scenario):
+        import numpy as np
+        import pyvc.libspec as L
+        from fsic.core.interfaces import ModelInterface
+        names = [] if scenario.startswith('no-variables') else ['A', 'I', 'T']
+        dtypes = {'A': np.dtype(float), 'I': np.dtype(int), 'T': np.dtype('<U2')}
+        n = 4
+        e = {'scenario': scenario, 'names': names, 'sets': [], 'casts': [], 'fulls': []}
+
+        class Series:
+            def __init__(self, name):
+                self.name, self.dtype, self.shape = name, dtypes[name], (n,)
+        series = {k: Series(k) for k in names}
+
+        class Row:
+            def __init__(self, i):
+                self.i = i
+
+            def astype(self_, dt, *a, **k):
+                r = ('row', self_.i, dt)
+                e['casts'].append(r)
+                return r
+
+        class NewValues(np.ndarray):          # passes isinstance(_, np.ndarray); only shape and row iteration are used
+            pass
+        shape = (len(names), n) if scenario.endswith('array') and 'wrong' not in scenario else (len(names) + 1, n)
+        if 'scalar' in scenario:
+            new = 1.5
+        else:
+            new = np.zeros(shape).view(NewValues)
+            rows = [Row(i) for i in range(shape[0])]
+            e['rows'] = rows
+        e['new'] = new
+
+        class Current:
+            shape = (len(names), n)
+        cls = VectorContainer if self.which == 'container' else type('M', (ModelInterface, VectorContainer), {})
+        obj = SObj(cls, {'index': list(names), 'names': list(names), 'span': list(range(n))}, label='c')
+
+        def getattribute(interp_, o, args, kwargs, node):
+            key = args[0]
+            if isinstance(key, str) and key.startswith('_') and key[1:] in series:
+                return series[key[1:]]
+            raise OutOfSubset(f'__getattribute__({key!r})')
+
+        def setattr_(interp_, o, args, kwargs, node):
+            e['sets'].append((args[0], args[1]))
+            return None
+
+        def values_get(interp_, o, args, kwargs, node):
+            return Current()
+
+        def full(interp_, args, kwargs, node):
+            r = ('full', args[0], args[1], kwargs.get('dtype'))
+            e['fulls'].append(r)
+            return r
+        full.always = True
+        L._MODELS[np.full] = full
+        if not isinstance(new, float):
+            def zip_model(interp_, args, kwargs, node):
+                a, b = args
+                return list(zip(list(a), rows if b is new else list(b)))
+            zip_model.always = True
+            L._MODELS[zip] = zip_model
+        interp.registry.set_calls({'fsic.core.containers.VectorContainer.__setattr__': setattr_,
+                                   'fsic.core.containers.VectorContainer.values': values_get, 'fsic.core.interfaces.ModelInterface.values': values_get,
+                                   'builtins.object.__getattribute__': getattribute})
+        e['getattribute'] = getattribute
+        orig_getattr = interp.getattr
+
+        def patched_getattr(o, name, node=None):
+            if o is obj and name == '__getattribute__':
+                class G:
+                    def vc_call(self_, interp_, args, kwargs, node_):
+                        return getattribute(interp_, o, args, kwargs, node_)
+                return G()
+            if o is obj and name == 'values':
+                return Current()
+            return orig_getattr(o, name, node)
+        interp.getattr = patched_getattr
+        e['dtypes'] = dtypes
+        e['inputs'] = {}
+        return Call([new], {}, self_obj=obj, entry=e)
+
+    def post(self, interp, scenario, call, out):
+        ctx = interp.ctx
+        e = call.entry
+        names = e['names']
+        if out.kind == 'raise':
+            cls = exc_class(out.exc)
+            ctx.cover(getattr(cls, '__name__', '?'))
+            ctx.prove(z3.BoolVal(cls is DimensionError and 'wrong-shape' in scenario), 'DimensionError_only_for_an_array_of_another_shape', 'raises')
+            ctx.prove(z3.BoolVal(not e['sets']), 'a_rejected_replacement_assigns_nothing', 'frame')
+            return
+        ctx.cover('assigned')
+        ctx.prove(z3.BoolVal('wrong-shape' not in scenario), 'an_array_of_another_shape_is_rejected', 'raises')
+        ctx.prove(z3.BoolVal([k for k, _ in e['sets']] == names), 'each_variable_assigned_exactly_once_in_declaration_order_through_the_checked_assignment', 'ensures',
+                  note=str([k for k, _ in e['sets']]))
+        if [k for k, _ in e['sets']] != names:
+            return
+        for i, (k, v) in enumerate(e['sets']):
+            if 'scalar' in scenario:
+                ok = isinstance(v, tuple) and v[0] == 'full' and v[1] == (4,) and v[2] == e['new'] and v[3] == e['dtypes'][k]
+                ctx.prove(z3.BoolVal(ok), f'{k}:scalar_spread_over_the_variable_shape_with_the_variable_dtype', 'ensures', note=str(v))
+            else:
+                ok = isinstance(v, tuple) and v[0] == 'row' and v[1] == i and v[2] == e['dtypes'][k]
+                ctx.prove(z3.BoolVal(ok), f'{k}:row_{i}_cast_to_the_variable_dtype', 'ensures', note=str(v))
+
+
+CONTRACTS += [ValuesSetter('container'), ValuesSetter('model')]
